@@ -21,6 +21,8 @@ LEVEL_TEXT += ' Added clause: regeneration does not resolve unset settings at ge
 TECHNIQUE += '; optimizer equivalence (= C01.R11): the bootstrap is regenerated from the optimized model'
 TECHNIQUE += '; cut scoping of the context managers generated parsers run on (= C05.R3)'
 LEVEL_TEXT += ' Added clause: the runtime the shipped bootstrap runs on scopes cuts as the model does.'
+TECHNIQUE += "; who-may-read: the grammar actions read nothing of the running parser's configuration"
+LEVEL_TEXT += ' Added clause: the model a text compiles to does not depend on which of the three parsers read it.'
 LEVEL_NOTE = ('Trusted: the three front-ends of the checker (EBNF reader written from docs/syntax.rst, decompiler of the emitted '
               'with-block idiom, reader of the repr-as-source) and the canonicaliser, whose rewrites subsume Model.optimized().')
 EXPLANATION = ('Static translation validation on /repo sources; TatSu is not imported, no grammar is compiled. programs = rule '
